@@ -135,7 +135,7 @@ SET_METHODS = {"intersection": ast.BitAnd, "union": ast.BitOr, "difference": ast
 
 def normalise(tree):
     """Spellings with one meaning, rewritten in place to the one the analyses read (positions kept):
-    `x.sum(0)` / `np.sum(x, 0)` -> `axis=0`; `np.copy(X)` -> `X.copy()`; `np.zeros([a, b])` -> `np.zeros((a, b))`; `list()` -> `[]`, `dict()` -> `{}`; `sorted(list(x))` / `list(sorted(x))` -> `sorted(x)`; `s.intersection(t)` / `.union` / `.difference`
+    `x.sum(0)` / `np.sum(x, 0)` -> `axis=0`; `np.copy(X)` -> `X.copy()`; `np.zeros([a, b])` -> `np.zeros((a, b))`; `list()` -> `[]`, `dict()` -> `{}`; `sorted(list(x))` / `list(sorted(x))` -> `sorted(x)`; `1 + x` -> `x + 1`, `2 * x` -> `x * 2`; `s.intersection(t)` / `.union` / `.difference`
     -> `s & t` / `|` / `-` when s is a call of a node-set helper or set(...)."""
     nps = {(al.asname or al.name) for n in tree.body if isinstance(n, ast.Import) for al in n.names if al.name == "numpy"}
 
@@ -178,6 +178,11 @@ def normalise(tree):
                 return ast.copy_location(ast.BinOp(left=f.value, op=SET_METHODS[f.attr](), right=node.args[0]), node)
             return node
     N().visit(tree)
+    num = lambda a: isinstance(a, ast.Constant) and type(a.value) in (int, float)
+    for x in ast.walk(tree):
+        # a numeric constant operand of + or * is written on the right (the other operand is then a number or an array: both commute)
+        if isinstance(x, ast.BinOp) and isinstance(x.op, (ast.Add, ast.Mult)) and num(x.left) and not num(x.right):
+            x.left, x.right = x.right, x.left
     ast.fix_missing_locations(tree)
     return tree
 
